@@ -35,6 +35,8 @@ pub const GATE_MAX: Duration = Duration::from_secs(1);
 /// after all streams are done, wait at most this long for outstanding datagrams (loss is legal)
 pub const DGRAM_WAIT: Duration = Duration::from_millis(300);
 pub const SETUP_LIMIT: Duration = Duration::from_secs(10);
+/// first byte of the datagrams the close-point injection sends to fill the datagram send buffer
+const PROBE_DGRAM: u8 = 0xEE;
 
 // ---------------------------------------------------------------------------------------------
 // certificates / configs
@@ -250,6 +252,9 @@ pub struct Ctx {
     probes: RefCell<Vec<Probe>>,
     driver_slot: DriverSlot,
     marks: RefCell<Vec<(String, u64)>>,
+    /// streams obtained by probe futures (legitimate values): kept alive until the release phase,
+    /// dropping them would finish / stop them and thereby change the scenario
+    kept: Rc<RefCell<Vec<Box<dyn Any>>>>,
 }
 
 pub struct RunResult {
@@ -293,6 +298,7 @@ impl Ctx {
             probes: Default::default(),
             driver_slot: Default::default(),
             marks: Default::default(),
+            kept: Default::default(),
         }
     }
 
@@ -864,6 +870,10 @@ fn start_scenario(ctx: &Rc<Ctx>) {
                 loop {
                     ctx.set_op(tid, "recv_datagram", "recv_datagram".into());
                     match conn.recv_datagram().await {
+                        Ok(b) if b.first() == Some(&PROBE_DGRAM) => {
+                            // sent by the close-point injection of the peer, not part of the scenario
+                            ctx.count("probe_datagrams_seen_by_scenario");
+                        }
                         Ok(b) => {
                             let idx = if b.len() >= 2 && b[0] == peer.idx() as u8 && (b[1] as usize) < nd { Some(b[1] as usize) } else { None };
                             match idx {
@@ -970,9 +980,14 @@ async fn setup_probe_streams(ctx: &Rc<Ctx>) -> Result<(), String> {
 // close-point injection
 // ---------------------------------------------------------------------------------------------
 
-fn res_str<T, E: std::fmt::Debug>(r: Result<T, E>, ok: &str) -> String {
+type Kept = Rc<RefCell<Vec<Box<dyn Any>>>>;
+
+fn res_str<T: 'static, E: std::fmt::Debug>(r: Result<T, E>, ok: &str, kept: &Kept) -> String {
     match r {
-        Ok(_) => format!("Ok({ok})"),
+        Ok(v) => {
+            kept.borrow_mut().push(Box::new(v));
+            format!("Ok({ok})")
+        }
         Err(e) => short(format!("Err({e:?})")),
     }
 }
@@ -1016,18 +1031,12 @@ impl Ctx {
                     }
                 }
                 let c = conn.clone();
+                let kept = self.kept.clone();
+                kept.borrow_mut().push(Box::new(held));
                 if bi {
-                    add(side, "open_bi_wait", Expect::AfterClose, Box::pin(async move {
-                        let r = c.open_bi_wait().await;
-                        drop(held);
-                        res_str(r, "streams")
-                    }));
+                    add(side, "open_bi_wait", Expect::AfterClose, Box::pin(async move { res_str(c.open_bi_wait().await, "streams", &kept) }));
                 } else {
-                    add(side, "open_uni_wait", Expect::AfterClose, Box::pin(async move {
-                        let r = c.open_uni_wait().await;
-                        drop(held);
-                        res_str(r, "stream")
-                    }));
+                    add(side, "open_uni_wait", Expect::AfterClose, Box::pin(async move { res_str(c.open_uni_wait().await, "stream", &kept) }));
                 }
             }
             // accept_*: streams that are waiting to be accepted are legitimate values; repeat
@@ -1035,10 +1044,11 @@ impl Ctx {
             for bi in [false, true] {
                 for _ in 0..8 {
                     let c = conn.clone();
+                    let kept = self.kept.clone();
                     let pending = if bi {
-                        add(side, "accept_bi", Expect::AfterClose, Box::pin(async move { res_str(c.accept_bi().await, "streams") }))
+                        add(side, "accept_bi", Expect::AfterClose, Box::pin(async move { res_str(c.accept_bi().await, "streams", &kept) }))
                     } else {
-                        add(side, "accept_uni", Expect::AfterClose, Box::pin(async move { res_str(c.accept_uni().await, "stream") }))
+                        add(side, "accept_uni", Expect::AfterClose, Box::pin(async move { res_str(c.accept_uni().await, "stream", &kept) }))
                     };
                     if pending {
                         break;
@@ -1070,12 +1080,14 @@ impl Ctx {
             while let Ok(Some(_)) = conn.try_recv_datagram() {}
             {
                 let c = conn.clone();
-                add(side, "recv_datagram", Expect::AfterClose, Box::pin(async move { res_str(c.recv_datagram().await, "datagram") }));
+                let kept = self.kept.clone();
+                add(side, "recv_datagram", Expect::AfterClose, Box::pin(async move { res_str(c.recv_datagram().await, "datagram", &kept) }));
             }
             // datagram send-wait: fill the (small) datagram send buffer until one is pending
             for _ in 0..6 {
                 let c = conn.clone();
-                if add(side, "send_datagram_wait", Expect::AfterClose, Box::pin(async move { res_str(c.send_datagram_wait(Bytes::from(vec![0x33u8; 1000])).await, "") })) {
+                let kept = self.kept.clone();
+                if add(side, "send_datagram_wait", Expect::AfterClose, Box::pin(async move { res_str(c.send_datagram_wait(Bytes::from(vec![PROBE_DGRAM; 1000])).await, "", &kept) })) {
                     break;
                 }
             }
@@ -1279,6 +1291,7 @@ async fn run_async(spec: RunSpec) -> RunResult {
             ctx.sides[side.idx()].conn.borrow_mut().take();
             ctx.sides[side.idx()].ps.borrow_mut().take();
         }
+        ctx.kept.borrow_mut().clear();
         let mut futs = Vec::new();
         for side in Side::BOTH {
             if let Some(ep) = ctx.sides[side.idx()].ep.borrow_mut().take() {
